@@ -400,6 +400,22 @@ func httpEngGen(rng *rand.Rand, n int, emit func(string)) {
 			}
 			emit(fmt.Sprintf("ws %s %s %s %s %s", hx(httpGenHost(rng, d)), hx(pick(rng, []string{"/", "/a/ws", "/ab"})), uq,
 				httpEngTok(rng.Intn(1000), rng.Intn(5000)), httpEngTok(rng.Intn(1000), rng.Intn(5000))))
+		case k >= 945 && k < 952:
+			// h2c upgrade (RFC 7540 3.2): the handler has to take the user connection over, as for a websocket
+			d, user := pick(rng, httpGenDomains), ""
+			if r, ok := anyRoute(); ok && rng.Intn(5) != 0 {
+				d, user = r.domain, r.usr
+			}
+			uq := "-"
+			if user != "" {
+				uq = hx(user)
+			}
+			method, body := "GET", "-"
+			if rng.Intn(3) == 0 {
+				method, body = pick(rng, []string{"POST", "PUT"}), httpEngTok(rng.Intn(1000), rng.Intn(3000))
+			}
+			emit(fmt.Sprintf("h2c %s %s %s %s %s %d %s", hx(httpGenHost(rng, d)), hx(pick(rng, []string{"/", "/a/h2", "/ab"})), uq, method, body,
+				pick(rng, []int{200, 200, 201, 404, 500}), httpEngTok(rng.Intn(1000), rng.Intn(100000))))
 		case k < 970:
 			d, user := pick(rng, httpGenDomains), ""
 			if r, ok := anyRoute(); ok && rng.Intn(4) != 0 {
